@@ -19,7 +19,7 @@ CHECKS = {
     "C14": dict(
         text="Partial: writer/reader table agreement (each Sample impl and the AU pair use the same primitive type, width and byte "
              "order), each AuDecode phase consumes what it parsed, partial-read arithmetic of the byte sources is guarded, and a fast "
-             "path emitting freshly read bytes is dominated by carry-buffer emptiness, and carry bytes are dropped only after having been read; a restart seeks to where the constructors positioned the file; no byte source reports EOF behind a test that depends on a possibly-empty output window. Identity of composed byte streams is not decided.",
+             "path emitting freshly read bytes is dominated by carry-buffer emptiness, and carry bytes are dropped only after having been read; a restart seeks to where the constructors positioned the file; no byte source reports EOF behind a test that depends on a possibly-empty output window; no read() into a possibly zero-length buffer (0 would read as end of data); bytes read are handed on before work() returns; the direct-emit fast path needs a whole number of samples; the AU encoder's header length, offset word and magic agree with each other and with the decoder, whose format checks reject on mismatch. Identity of composed byte streams is not decided.",
         design="§4 C14", technique="sibling agreement of codec call tables + must-pass path rules + taint/guard analysis on MIR"),
     "C15": dict(
         text="Partial, audited: explicit-flow content taint (plus limited implicit flow into accumulators) over everything reachable "
@@ -39,7 +39,7 @@ CHECKS = {
         text="Partial: for derive-generated sync blocks chunk-independence holds by construction, checked on the generated MIR "
              "of every in-crate user and a generated family (lock-step iteration from 0, take(n), one process call per sample, "
              "no state written by work()). For hand-written blocks the bounded-copy rule and rate consistency (consume(a) with "
-             "produce(a/c) needs a multiple of c), written-before-committed, counted consume, moved-out state restored, advanced copies stored back, fills committed, no per-call limit/discard of state grown per sample, and no bulk copy of a partially consumed window into carried state. Other carried-state arithmetic of hand-written blocks is not decided.",
+             "produce(a/c) needs a multiple of c), written-before-committed, counted consume, moved-out state restored, advanced copies stored back, fills committed, no per-call limit/discard of state grown per sample, no bulk copy of a partially consumed window into carried state, output commitments are paid for by an input advance or a state change, output sized by an input window consumes from it, and what is written through slice() is committed. Other carried-state arithmetic of hand-written blocks is not decided.",
         design="§4 C08", technique="structural rules on macro-generated MIR over a generated program family"),
     "C12": dict(
         text="Partial: the stream stores only tags of committed samples and consume(0) removes none (central contract), and on "
@@ -56,7 +56,7 @@ CHECKS = {
         text="Decides three of the four clauses statically: no stream window type occurs in any field, static, escaping "
              "closure or leak call (=> nothing is held after work()); no CFG path reaches `return Ok(Again)` without any "
              "possible stream or state effect; a WaitForStream verdict whose nearest controlling test is a plain "
-             "'window of self.G is short' names G and asks for exactly the tested amount; no wait on an output while consumed input is held uncommitted; a wait that is already satisfied on its path needs certain progress on that path. 'Consumes no more than offered' is a runtime guard (C01.R1).",
+             "'window of self.G is short' names G and asks for exactly the tested amount; no wait on an output while consumed input is held uncommitted; a wait that is already satisfied on its path needs certain progress on that path (also in derive-generated work()); a wait answered on an effect-free path is supported by a test of the awaited stream; consume/produce counts are bounded by their own window by construction or guard (reported on affirmative evidence only; loop counters are left to the runtime guard C01.R1).",
         design="§4 C09", technique="type facts + effect-avoiding path search + guard/verdict agreement on MIR"),
     "C02": dict(
         text="Structural necessary conditions only: who-may-write on the stream's tag map (only commit adds, only consume "
@@ -66,14 +66,14 @@ CHECKS = {
     "C16": dict(
         text="Structural necessary conditions: checked subtractions in the Repeat counter are discharged by dominating "
              "guards; every finite source tests done() before any produce and never produces after done()==true "
-             "(sibling agreement); marker tags are created only under progress==0; Infinite never reports done; a read never pulls more bytes than the output window takes; the end of a repetition is decided only on read()==0 or byte-counter==0; no EOF behind a test that depends on a possibly-empty output window. "
+             "(sibling agreement); marker tags are created only under progress==0; Infinite never reports done; a read never pulls more bytes than the output window takes; the end of a repetition is decided only on read()==0 or byte-counter==0; no EOF behind a test that depends on a possibly-empty output window; no read() into a possibly zero-length buffer; EOF on the nothing-left side of its controlling test; state re-initialised for a new repetition agrees with the constructors; no wrapping decrement of the counter. "
              "Emission counts for data larger than the buffer are values and are not decided.",
         design="§4 C16", technique="guard-fact dominance + must-pass path rules on MIR"),
     "C01": dict(
         text="Structural necessary conditions only: every write of the ring positions is dominated by the ok-edge of a "
              "real comparison of the requested count with the fill level (oversize commit/consume refused before any "
              "state changes); the constructor gates on size % element size; the single raw slice is bounded by the "
-             "mapping and windows come from checked indexing; each side writes only its own position, from values read under the same lock acquisition. Data identity/order/wrap arithmetic are not decided.",
+             "mapping and windows come from checked indexing; each side writes only its own position, from values read under the same lock acquisition; the window API forwards consume/produce unchanged and its len()/is_empty() agree with the window bounds. Data identity/order/wrap arithmetic are not decided.",
         design="§4 C01", technique="MIR dominance analysis of guards over state writes"),
     "C17": dict(
         text="Abstract interpretation of the OpenOptions builder per `match mode` arm against the documented table "
